@@ -16,7 +16,7 @@ rows.  Everything numeric is covered by the bounded monitors of C19 / C07.
 import z3
 
 from mmverif.engine import frame_ledger as fl
-from mmverif.engine.lib import ASSUMPTIONS, lib
+from mmverif.engine.lib import ASSUMPTIONS, lib, vmethod
 from mmverif.engine.specops import *  # pylint: disable=wildcard-import
 from mmverif.engine.specs import ModuleSpec, register
 from mmverif.engine.symexec import ObjView, RaiseSig, unwrap
@@ -40,7 +40,6 @@ DIAG = TRecord({'corr_test': TOpt(TBool()), 'noisy_geos': TOpt(TSeq(I)),
                 'enough_data': TOpt(TBool()), 'pretest_start': TOpt(TInt()),
                 'outlier_dates': TOpt(TSeq(I))})
 ANA_SORT = sort_named('AnalysisData')
-ANA = z3.Function('ANA', I, fl.RowSet, I, I, I, I, I, I, ANA_SORT)
 
 spec.cls('TBRDiagnostics', fields={
     '_df_names': TOpt(TObj('DataFrameNameMapping')),
@@ -97,11 +96,51 @@ def sub(o, name):
 
 
 def ana_of(o):
-  """The analysis data the pivot computes from the current screened data."""
+  """The analysis data: the pivot (index date x period, one column per group
+  label, sum of the target) of the current screened data with the group ids
+  relabelled control -> 'x', treatment -> 'y' (anything else NaN), the period
+  level then moved from the index to a column."""
   d = unwrap(o._data).val
   n, g = sub(o, '_df_names'), sub(o, '_groups')
-  return ANA(d.src, d.rows, N(o._target), N(n.date), N(n.period), N(n.group),
-             N(g.control), N(g.treatment))
+  rel = fl.relabelled(
+      fl.VFrame(d.src, d.rows, getattr(d, 'over', ())), N(n.group),
+      [(N(g.control), fl.label_code('x')),
+       (N(g.treatment), fl.label_code('y'))])
+  return fl.RESET_INDEX(
+      fl.pivot_term(rel, N(n.date), N(n.period), N(n.group), N(o._target)),
+      N(n.period))
+
+
+@vmethod('opaque:AnalysisData', 'reset_index')
+def _ana_reset_index(ex, recv, args, kwargs, node):
+  if args or set(kwargs) - {'level', 'inplace'} or 'level' not in kwargs:
+    ex.unsupported(node, 'reset_index with these arguments')
+  lvl = fl.col_term(ex, kwargs['level'], node)
+  new = fl.RESET_INDEX(recv.t, lvl)
+  inplace = kwargs.get('inplace')
+  if inplace is not None and z3.is_true(z3.simplify(as_bool_term(inplace))):
+    recv.t = new           # the table object itself is changed
+    return NONE
+  return VOpaque(new, 'AnalysisData')
+
+
+def same_table(a, b):
+  """a == b for table terms, stated argument-wise when both are applications
+  of the same ledger function (equal arguments give equal tables; the
+  row -> value maps are compared row by row, which keeps the obligation free
+  of lambda equalities).  Implies a == b."""
+  if (z3.is_app(a) and z3.is_app(b) and a.decl().eq(b.decl())
+      and a.decl().name() in ('FR_PIVOT_SUM', 'FR_RESET_INDEX')
+      and a.num_args() == b.num_args()):
+    parts = []
+    for x, y in zip(a.children(), b.children()):
+      if isinstance(x.sort(), z3.ArraySortRef) and x.sort() != fl.RowSet:
+        r = z3.Int('r!same')
+        parts.append(z3.ForAll([r], z3.Select(x, r) == z3.Select(y, r)))
+      else:
+        parts.append(same_table(x, y))
+    return z3.And(parts)
+  return a == b
 
 
 def configured(o):
@@ -136,26 +175,34 @@ spec.contract(
         configured(s.self), Not(IsNone(s.self._analysis_data))))],
     ensures=[])
 
-BOTH = z3.Function('BOTH_GROUPS_PRESENT', I, fl.RowSet, I, I, I,
-                   z3.BoolSort())
-
-
 def _both(o):
+  """Both group ids occur in the group column of the screened data."""
   d = unwrap(o._data).val
-  return BOTH(d.src, d.rows, N(sub(o, '_df_names').group),
-              N(sub(o, '_groups').control), N(sub(o, '_groups').treatment))
+  gcol = N(sub(o, '_df_names').group)
+  fr = fl.VFrame(d.src, d.rows, getattr(d, 'over', ()))
+
+  def present(v, nm):
+    r = z3.Int('r!' + nm)
+    return z3.Exists([r], z3.And(z3.IsMember(r, d.rows),
+                                 fr.colv(gcol, r) == v))
+  return z3.And(present(N(sub(o, '_groups').control), 'ctl'),
+                present(N(sub(o, '_groups').treatment), 'trt'))
 
 
 spec.contract(
     'TBRDiagnostics._create_analysis_data', params={},
-    modifies=['self._analysis_data'], props=('C19',), assumed=ASSUMED,
-    requires=[('configured', lambda s: configured(s.self))],
+    modifies=['self._analysis_data'], props=('C19',),
+    requires=[('configured', lambda s: configured(s.self)),
+              ('the group ids are pairwise distinct (GroupSemantics)',
+               lambda s: z3.Distinct(N(sub(s.self, '_groups').control),
+                                     N(sub(s.self, '_groups').treatment),
+                                     N(sub(s.self, '_groups').unassigned)))],
     raises={'ValueError': ('a group has no row in the screened data',
                            lambda s: Not(_both(s.self)))},
     ensures=[('analysis data = pivot of the current screened data',
               lambda s: And(Not(IsNone(s.self._analysis_data)),
-                            unwrap(s.self._analysis_data).val.t ==
-                            ana_of(s.self)))])
+                            same_table(unwrap(s.self._analysis_data).val.t,
+                                       ana_of(s.self))))])
 
 
 def _screened(s):
@@ -199,7 +246,7 @@ spec.contract(
                       Eq(Val(s.self._target), sub(s.self, '_df_names').response))),
     ])
 
-FUNCTIONS = ['TBRDiagnostics.fit']
+FUNCTIONS = ['TBRDiagnostics.fit', 'TBRDiagnostics._create_analysis_data']
 LEMMAS = []
 
 # ---------------------------------------------------------------------------
